@@ -95,7 +95,10 @@ void __cxa_rethrow(void)
 }
 
 /* ---- operator new / delete: never fail (DESIGN 2.2 item 5) ---- */
-void *_Znwm(unsigned long n) { return __CPROVER_allocate(n, 0); }
+#ifndef G2C_NEW_HOOK
+#define G2C_NEW_HOOK(n)
+#endif
+void *_Znwm(unsigned long n) { G2C_NEW_HOOK(n) return __CPROVER_allocate(n, 0); }
 void *_Znam(unsigned long n) { return __CPROVER_allocate(n, 0); }
 void _ZdlPv(void *p) { if (p) __CPROVER_deallocate(p); }
 void _ZdlPvm(void *p, unsigned long n) { (void)n; if (p) __CPROVER_deallocate(p); }
